@@ -90,4 +90,324 @@ theorem clone_as_memcpy_refuted :
       (fun _ => true) siblingAssign = some [.drop 0 [.fld 0] 0]
     ∧ blockOwnEvs (fun _ => true) siblingAssign ≠ [.drop 0 [.fld 0] 0] := by decide
 
+/-! ## S. The events are the token semantics' own
+
+  L1–L3 compare the lowering with `ownEvs`, a table that says per instruction which clone / drop
+  calls the ownership reading of the MIR asks for.  T1 (`checker_sound`) is about `cInstr`, the
+  token semantics.  The theorems below close the gap between the two by proof instead of by
+  inspection: on every step `cInstr` takes,
+  * a MIR `Drop` has a drop event — on the same root and path — exactly when the step releases
+    the value at that place (`whole` → `gone` / `holed` at that path), and no event exactly when
+    the step changes nothing but the clock (S1);
+  * a MIR `Clone` of a place has a clone event exactly when the step creates a value into the
+    target without taking it from anywhere, and then the source root owned a value when it was
+    read; with no event no variable and no token changes (S2); same for constants / context (S3).
+  Composed with L1 (`lir_*`): the clone / drop calls in the LIR, as `Lowerer::instruction` /
+  `assign` / `drop` are written today, are the releases and copies of the semantics the verified
+  checker is sound for.  (A creation by a literal or a call result and a transfer by `Move` /
+  call arguments involve no clone / drop function of the glue and have no event.) -/
+
+/-- The step `c → c'` of the token semantics releases the value at place `p`: the root variable
+    owned a value (`whole`) and afterwards it is `gone` (whole variable) or has a hole at exactly
+    the path `p.proj`; nothing else changes but the clock. -/
+def ReleasedAt (c c' : CState) (p : Place) : Prop :=
+  ∃ t k, cget c p.var = .whole t k ∧
+    c' = tick { c with vs := c.vs.set p.var (if p.proj = [] then .gone else .holed t k p.proj) }
+
+/-- The step `c → c'` creates a value of type `ty` (a fresh token where the variant holds one) and
+    stores it in `to`; no variable is taken from. -/
+def CreatedInto (it : Item) (c c' : CState) (to : Place) (ty : Nat) : Prop :=
+  ∃ k c2, cWrite it (cFresh it c ty k).1 to ty (cFresh it c ty k).2.1 (cFresh it c ty k).2.2 = .ok c2
+    ∧ c' = tick c2
+
+/-- S1. Every step the token semantics takes on a MIR `Drop`: the lowering table has the drop event
+    (same root, same path) and the step releases exactly there — or it has none and the step is the
+    identity up to the clock.  Nothing in between: no release without a call, no call without one. -/
+theorem drop_event_iff_release (it : Item) (ω : Oracle) (c c' : CState) (p : Place) (ty : Nat)
+    (h : cInstr it ω c (.drop p ty) = .ok c') :
+    (ownEvs it.ndB (.drop p ty) = [.drop p.var p.proj ty] ∧ ReleasedAt c c' p)
+    ∨ (ownEvs it.ndB (.drop p ty) = [] ∧ c' = tick c) := by
+  simp only [cInstr, bind, Except.bind] at h
+  cases hty : it.types[ty]? with
+  | none => simp [Item.nd, hty] at h
+  | some d =>
+    have hnd : it.nd ty = .ok d.nd := by simp [Item.nd, hty]
+    have hb : it.ndB ty = d.nd := by simp [Item.ndB, hty]
+    rw [hnd] at h
+    cases hd : d.nd with
+    | false =>
+      right
+      simp only [hd, Bool.false_eq_true, if_false, Except.ok.injEq] at h
+      exact ⟨by simp [ownEvs, hb, hd], h.symm⟩
+    | true =>
+      left
+      simp only [hd, if_true] at h
+      refine ⟨by simp [ownEvs, hb, hd], ?_⟩
+      cases hp : p.proj with
+      | nil =>
+        simp only [hp] at h
+        cases hv : it.varTy p.var with
+        | error e => simp [hv] at h
+        | ok vt =>
+          simp only [hv] at h
+          split at h
+          · simp at h
+          · cases hs : cget c p.var with
+            | whole t k =>
+              simp only [hs, cset] at h
+              by_cases hl : p.var < c.vs.length
+              · simp only [hl, if_true, Except.ok.injEq] at h
+                exact ⟨t, k, hs, by simp [← h, hp]⟩
+              · simp [hl] at h
+            | un => simp [hs] at h
+            | gone => simp [hs] at h
+            | part d fs => simp [hs] at h
+            | holed t k q => simp [hs] at h
+      | cons pc rest =>
+        simp only [hp] at h
+        cases hv : it.varTy p.var with
+        | error e => simp [hv] at h
+        | ok vt =>
+          simp only [hv] at h
+          split at h
+          · cases hs : cget c p.var with
+            | whole t k =>
+              simp only [hs, cset] at h
+              by_cases hl : p.var < c.vs.length
+              · simp only [hl, if_true, Except.ok.injEq] at h
+                exact ⟨t, k, hs, by simp [← h, hp]⟩
+              · simp [hl] at h
+            | un => simp [hs] at h
+            | gone => simp [hs] at h
+            | part d fs => simp [hs] at h
+            | holed t k q => simp [hs] at h
+          · simp at h
+
+/-- S2. Every step on `to = clone p`: a clone event reading from `p` and a value created into `to`
+    while the root of `p` owns one — or no event, and no variable and no token changes. -/
+theorem clone_event_iff_copy (it : Item) (ω : Oracle) (c c' : CState) (to p : Place) (ty : Nat)
+    (h : cInstr it ω c (.assign to ty (.clone p)) = .ok c') :
+    (ownEvs it.ndB (.assign to ty (.clone p)) = [.clone (some p.var) p.proj ty]
+      ∧ (∃ t k, cget c p.var = .whole t k) ∧ CreatedInto it c c' to ty)
+    ∨ (ownEvs it.ndB (.assign to ty (.clone p)) = [] ∧ c'.vs = c.vs ∧ c'.next = c.next) := by
+  simp only [cInstr, cSource, bind, Except.bind] at h
+  cases hty : it.types[ty]? with
+  | none => simp [Item.nd, hty] at h
+  | some d =>
+    have hnd : it.nd ty = .ok d.nd := by simp [Item.nd, hty]
+    have hb : it.ndB ty = d.nd := by simp [Item.ndB, hty]
+    rw [hnd] at h
+    cases hd : d.nd with
+    | false =>
+      right
+      simp only [hd, Bool.false_eq_true, if_false] at h
+      refine ⟨by simp [ownEvs, hb, hd], ?_⟩
+      split at h
+      · cases htr : it.tracked to.var with
+        | error e => simp [htr] at h
+        | ok b =>
+          cases b with
+          | true => simp [htr] at h
+          | false =>
+            simp only [htr, Bool.false_eq_true, if_false, Except.ok.injEq] at h
+            subst h; exact ⟨rfl, rfl⟩
+      · simp only [Except.ok.injEq] at h
+        subst h; exact ⟨rfl, rfl⟩
+    | true =>
+      left
+      simp only [hd, if_true] at h
+      refine ⟨by simp [ownEvs, hb, hd], ?_⟩
+      cases htr : it.tracked p.var with
+      | error e => simp [htr] at h
+      | ok b =>
+        cases b with
+        | false => simp [htr] at h
+        | true =>
+          simp only [htr, if_true] at h
+          cases hs : cget c p.var with
+          | whole t k =>
+            simp only [hs] at h
+            generalize hf : cFresh it c ty (if p.proj = [] then k else ω c.clk) = f at h
+            obtain ⟨c1, tk, kk⟩ := f
+            simp only at h
+            cases hw : cWrite it c1 to ty tk kk with
+            | error e => simp [hw] at h
+            | ok c2 =>
+              simp only [hw, Except.ok.injEq] at h
+              exact ⟨⟨t, k, rfl⟩, _, c2, by rw [hf]; exact hw, h.symm⟩
+          | un => simp [hs] at h
+          | gone => simp [hs] at h
+          | part d fs => simp [hs] at h
+          | holed t k q => simp [hs] at h
+
+/-- S3. The same for `load_constant` / `load_context`. -/
+theorem global_event_iff_copy (it : Item) (ω : Oracle) (c c' : CState) (to : Place) (ty : Nat)
+    (h : cInstr it ω c (.assign to ty .global) = .ok c') :
+    (ownEvs it.ndB (.assign to ty .global) = [.clone none [] ty] ∧ CreatedInto it c c' to ty)
+    ∨ (ownEvs it.ndB (.assign to ty .global) = [] ∧ c'.vs = c.vs ∧ c'.next = c.next) := by
+  simp only [cInstr, cSource, bind, Except.bind] at h
+  cases hty : it.types[ty]? with
+  | none => simp [Item.nd, hty] at h
+  | some d =>
+    have hnd : it.nd ty = .ok d.nd := by simp [Item.nd, hty]
+    have hb : it.ndB ty = d.nd := by simp [Item.ndB, hty]
+    rw [hnd] at h
+    cases hd : d.nd with
+    | false =>
+      right
+      simp only [hd, Bool.false_eq_true, if_false] at h
+      refine ⟨by simp [ownEvs, hb, hd], ?_⟩
+      split at h
+      · cases htr : it.tracked to.var with
+        | error e => simp [htr] at h
+        | ok b =>
+          cases b with
+          | true => simp [htr] at h
+          | false =>
+            simp only [htr, Bool.false_eq_true, if_false, Except.ok.injEq] at h
+            subst h; exact ⟨rfl, rfl⟩
+      · simp only [Except.ok.injEq] at h
+        subst h; exact ⟨rfl, rfl⟩
+    | true =>
+      left
+      simp only [hd, if_true] at h
+      refine ⟨by simp [ownEvs, hb, hd], ?_⟩
+      generalize hf : cFresh it c ty (ω c.clk) = f at h
+      obtain ⟨c1, tk, kk⟩ := f
+      simp only at h
+      cases hw : cWrite it c1 to ty tk kk with
+      | error e => simp [hw] at h
+      | ok c2 =>
+        simp only [hw, Except.ok.injEq] at h
+        exact ⟨_, c2, by rw [hf]; exact hw, h.symm⟩
+
+/-! ### composed with L1: the calls in the LIR are the releases / copies of the semantics -/
+
+/-- S4. S1 over the lowering as written today (`Generated/MirLower`, through L1). -/
+theorem lir_drop_call_iff_release (it : Item) (ω : Oracle) (c c' : CState) (p : Place) (ty : Nat)
+    (h : cInstr it ω c (.drop p ty) = .ok c') :
+    (instrEvs RotoV.Gen.MirLower.lowering it.ndB (.drop p ty) = some [.drop p.var p.proj ty]
+      ∧ ReleasedAt c c' p)
+    ∨ (instrEvs RotoV.Gen.MirLower.lowering it.ndB (.drop p ty) = some [] ∧ c' = tick c) := by
+  rw [instruction_lowering_keeps_events]
+  rcases drop_event_iff_release it ω c c' p ty h with ⟨h1, h2⟩ | ⟨h1, h2⟩
+  · exact .inl ⟨by rw [h1], h2⟩
+  · exact .inr ⟨by rw [h1], h2⟩
+
+/-- S5. S2 over the lowering as written today. -/
+theorem lir_clone_call_iff_copy (it : Item) (ω : Oracle) (c c' : CState) (to p : Place) (ty : Nat)
+    (h : cInstr it ω c (.assign to ty (.clone p)) = .ok c') :
+    (instrEvs RotoV.Gen.MirLower.lowering it.ndB (.assign to ty (.clone p))
+        = some [.clone (some p.var) p.proj ty]
+      ∧ (∃ t k, cget c p.var = .whole t k) ∧ CreatedInto it c c' to ty)
+    ∨ (instrEvs RotoV.Gen.MirLower.lowering it.ndB (.assign to ty (.clone p)) = some []
+      ∧ c'.vs = c.vs ∧ c'.next = c.next) := by
+  rw [instruction_lowering_keeps_events]
+  rcases clone_event_iff_copy it ω c c' to p ty h with ⟨h1, h2⟩ | ⟨h1, h2⟩
+  · exact .inl ⟨by rw [h1], h2⟩
+  · exact .inr ⟨by rw [h1], h2⟩
+
+/-- S6. S3 over the lowering as written today. -/
+theorem lir_global_clone_call_iff_copy (it : Item) (ω : Oracle) (c c' : CState) (to : Place) (ty : Nat)
+    (h : cInstr it ω c (.assign to ty .global) = .ok c') :
+    (instrEvs RotoV.Gen.MirLower.lowering it.ndB (.assign to ty .global) = some [.clone none [] ty]
+      ∧ CreatedInto it c c' to ty)
+    ∨ (instrEvs RotoV.Gen.MirLower.lowering it.ndB (.assign to ty .global) = some []
+      ∧ c'.vs = c.vs ∧ c'.next = c.next) := by
+  rw [instruction_lowering_keeps_events]
+  rcases global_event_iff_copy it ω c c' to ty h with ⟨h1, h2⟩ | ⟨h1, h2⟩
+  · exact .inl ⟨by rw [h1], h2⟩
+  · exact .inr ⟨by rw [h1], h2⟩
+
+/-- two variables of a droppable type 0, one of a scalar type 1 -/
+def semItem : Item :=
+  { types := [⟨true, .opaque⟩, ⟨false, .opaque⟩], vars := [0, 0, 1], params := [], retTy := 0, blocks := [] }
+
+/-- variable 0 owns token 0 -/
+def semState : CState := { vs := [.whole (some 0) 0, .un, .un], sc := [], next := 1, clk := 0 }
+
+/-- Non-vacuity of S1, active side: a drop that executes and releases. -/
+example : ∃ c', cInstr semItem (fun _ => 0) semState (.drop ⟨0, []⟩ 0) = .ok c'
+    ∧ ReleasedAt semState c' ⟨0, []⟩ := ⟨_, rfl, _, _, rfl, rfl⟩
+
+/-- … silent side: the drop of a scalar is no call and no release. -/
+example : cInstr semItem (fun _ => 0) semState (.drop ⟨2, []⟩ 1) = .ok (tick semState) := rfl
+
+/-- Non-vacuity of S2: a clone that executes, reads a live source and creates into `to`. -/
+example : ∃ c', cInstr semItem (fun _ => 0) semState (.assign ⟨1, []⟩ 0 (.clone ⟨0, []⟩)) = .ok c'
+    ∧ CreatedInto semItem semState c' ⟨1, []⟩ 0 := ⟨_, rfl, 0, _, rfl, rfl⟩
+
+/-- Non-vacuity of S3. -/
+example : ∃ c', cInstr semItem (fun _ => 0) semState (.assign ⟨1, []⟩ 0 .global) = .ok c'
+    ∧ CreatedInto semItem semState c' ⟨1, []⟩ 0 := ⟨_, rfl, 0, _, rfl, rfl⟩
+
+/-- The link has consequences: a lowering that emitted the drop call of one MIR `Drop` twice
+    performs, in the semantics the checker is sound for, a double drop. -/
+theorem drop_call_twice_is_double_drop :
+    cRun semItem (fun _ => 0) semState [.drop ⟨0, []⟩ 0, .drop ⟨0, []⟩ 0] = .error .doubleDrop := rfl
+
+/-! ### whole runs -/
+
+/-- what S1–S3 say of the step `c → c'` on instruction `i` -/
+def StepSpec (it : Item) (c c' : CState) : Instr → Prop
+  | .drop p ty =>
+    (ownEvs it.ndB (.drop p ty) = [.drop p.var p.proj ty] ∧ ReleasedAt c c' p)
+    ∨ (ownEvs it.ndB (.drop p ty) = [] ∧ c' = tick c)
+  | .assign to ty (.clone p) =>
+    (ownEvs it.ndB (.assign to ty (.clone p)) = [.clone (some p.var) p.proj ty]
+      ∧ (∃ t k, cget c p.var = .whole t k) ∧ CreatedInto it c c' to ty)
+    ∨ (ownEvs it.ndB (.assign to ty (.clone p)) = [] ∧ c'.vs = c.vs ∧ c'.next = c.next)
+  | .assign to ty .global =>
+    (ownEvs it.ndB (.assign to ty .global) = [.clone none [] ty] ∧ CreatedInto it c c' to ty)
+    ∨ (ownEvs it.ndB (.assign to ty .global) = [] ∧ c'.vs = c.vs ∧ c'.next = c.next)
+  | i => ownEvs it.ndB i = []
+
+/-- a run of the token semantics in which every step is the release / copy its events name -/
+def RunSpec (it : Item) (ω : Oracle) : CState → List Instr → CState → Prop
+  | c, [], c' => c' = c
+  | c, i :: is, c' => ∃ c1, cInstr it ω c i = .ok c1 ∧ StepSpec it c c1 i ∧ RunSpec it ω c1 is c'
+
+theorem step_events_are_semantic (it : Item) (ω : Oracle) (c c' : CState) (i : Instr)
+    (h : cInstr it ω c i = .ok c') : StepSpec it c c' i := by
+  cases i with
+  | drop p ty => exact drop_event_iff_release it ω c c' p ty h
+  | setDisc v ty k => rfl
+  | assign to ty v =>
+    cases v with
+    | clone p => exact clone_event_iff_copy it ω c c' to p ty h
+    | global => exact global_event_iff_copy it ω c c' to ty h
+    | lit => rfl
+    | move w => rfl
+    | read vs => rfl
+    | call args => rfl
+    | disc x => rfl
+
+/-- S7. Every run of the token semantics over an instruction list — the runs `checker_sound`
+    speaks about — is, step by step and in order, the releases and copies named by the events;
+    by L2 the concatenation of these events is the list of clone / drop calls of the LIR block. -/
+theorem run_events_are_semantic (it : Item) (ω : Oracle) : ∀ (is : List Instr) (c c' : CState),
+    cRun it ω c is = .ok c' → RunSpec it ω c is c'
+  | [], c, c', h => by
+    simp only [cRun, Except.ok.injEq] at h
+    exact h.symm
+  | i :: is, c, c', h => by
+    simp only [cRun, bind, Except.bind] at h
+    cases h1 : cInstr it ω c i with
+    | error e => simp [h1] at h
+    | ok c1 =>
+      simp only [h1] at h
+      exact ⟨c1, h1, step_events_are_semantic it ω c c1 i h1, run_events_are_semantic it ω is c1 c' h⟩
+
+/-- S8. A block as lowered today: its LIR calls are the concatenated events, and every run of its
+    instructions performs exactly these releases / copies, in this order. -/
+theorem block_run_calls_are_semantic (it : Item) (ω : Oracle) (b : Block) (c c' : CState)
+    (h : cRun it ω c b.instrs = .ok c') :
+    blockEvs RotoV.Gen.MirLower.lowering it.ndB b = some (b.instrs.flatMap (ownEvs it.ndB))
+    ∧ RunSpec it ω c b.instrs c' :=
+  ⟨block_lowering_keeps_events it.ndB b, run_events_are_semantic it ω b.instrs c c' h⟩
+
+/-- Non-vacuity of S7 / S8: clone then drop of the source runs, with both events. -/
+example : ∃ c', cRun semItem (fun _ => 0) semState
+    [.assign ⟨1, []⟩ 0 (.clone ⟨0, []⟩), .drop ⟨0, []⟩ 0] = .ok c' := ⟨_, rfl⟩
+
 end RotoV.C03
